@@ -150,6 +150,35 @@ def run(ck):
             f = df[0] if df else (-1, a[0], b[0])
             ck.violation("core-multipkg-output-differs", "3-package program seed %d: line %d llgo `%s` vs go `%s`" % (seed, f[0], str(f[1])[:80], str(f[2])[:80]),
                          {"seed": seed, "line": f[0], "llgo": f[1], "go": f[2]})
+    # hand-written cross-package module: sealed interfaces (unexported methods promoted through embedding across
+    # packages), same-named unexported methods of different packages, generics, init order, method values/expressions
+    xd = os.path.join(H, "xpkg")
+    files = {}
+    for root, _, fs in os.walk(xd):
+        for f in fs:
+            if f.endswith(".go"):
+                files[os.path.relpath(os.path.join(root, f), xd)] = open(os.path.join(root, f)).read()
+    pd = os.path.join(ck.work, "xpkg")
+    e2e.write_module(pd, files)
+    r2, o2 = e2e.go_build(pd, os.path.join(pd, "p_go"))
+    if r2 != 0:
+        ck.correspondence_broken("xpkg-reference-build", o2[-800:])
+    else:
+        b = e2e.run_plain(os.path.join(pd, "p_go"), timeout=60)
+        for tag, opt in (("O0", "-O0"), ("O2", "-O2")):
+            r1, o1 = L.build(pd, os.path.join(pd, "p_llgo_" + tag), opt=opt, timeout=1500)
+            if r1 != 0:
+                if tag == "O2":
+                    continue
+                ck.violation("core-xpkg-does-not-build", "llgo fails to build the cross-package module: " + o1[-300:], {"log": o1[-1500:]})
+                continue
+            a = L.run_bin(os.path.join(pd, "p_llgo_" + tag), timeout=120)
+            la, lb, df = cmp_outputs("xpkg", a, b, 0)
+            lines_total += len(lb)
+            if df or a[0] != b[0]:
+                f = df[0] if df else (-1, a[0], b[0])
+                ck.violation("core-xpkg-output-differs-" + (str(f[2]).split() or ["rc"])[0], "cross-package module (%s): line %d llgo `%s` vs go `%s`" % (tag, f[0], str(f[1])[:100], str(f[2])[:100]),
+                             {"opt": tag, "line": f[0], "llgo": f[1], "go": f[2], "module": "props/C01/xpkg"})
     ck.phase("multi-package program done")
 
     # F16 minimal probe
